@@ -118,6 +118,11 @@ Theorem C19_accepts_sound : forall O tr s,
 Proof. exact tg_accepts_sound. Qed.
 Print Assumptions C19_accepts_sound.
 
+Theorem C19_accepts_snap_accepts : forall O tr s,
+  tg_accepts_snap O s tr = true -> tg_accepts O s (map fst tr) = true.
+Proof. exact tg_accepts_snap_accepts. Qed.
+Print Assumptions C19_accepts_snap_accepts.
+
 (* ---- ClientHello pre-filter: only a datagram of >= 14 bytes whose first byte is 22 and whose
    14th is 1 opens a session; a CoAP version-1 header never does *)
 Theorem C19_prefilter_spec : forall d,
